@@ -2,3 +2,7 @@
 namespace momo {
 template class HashMultiMap<int, int64_t>;
 }
+namespace momo { namespace internal {
+struct C08VS : public HashMultiMapSettings {};
+template class VersionKeeper<C08VS, true>;    // what HashMultiMapIterator derives from when checkValueVersion is on
+}}
